@@ -128,7 +128,7 @@ func (r *llRun) fail(format string, a ...interface{}) {
 
 // reportC records a violation of the given kind (oob, null, ...) with the current model, like Interp.report.
 func (in *Interp) reportC(kind, msg, site string) {
-	if in.feasible() {
+	if in.definitelyFeasible() {
 		in.ensureModel()
 		in.report(kind, msg, site, in.path.model)
 	}
